@@ -42,16 +42,21 @@ def main():
     sid = "%s%s" % (pid, letter)
     dest = os.path.join(VERIF, "seeded", sid)
     if not os.path.exists(patch) and os.path.exists(os.path.join(dest, "patch.diff")):
-        # the sub-agent's worktree is gone: re-verify from the filed copy
-        import tempfile as _t
+        # the sub-agent's worktree is gone: re-verify from the filed copy.  The
+        # build script names the demo source by its original suffix.
+        import re as _re, tempfile as _t
         stage = _t.mkdtemp(prefix="ufw-seedsrc-")
-        shutil.copy(os.path.join(dest, "patch.diff"), os.path.join(stage, "patch%s.diff" % suffix))
-        shutil.copy(os.path.join(dest, "demo.c"), os.path.join(stage, "demo%s.c" % suffix))
-        shutil.copy(os.path.join(dest, "build-demo.sh"), os.path.join(stage, "build-demo%s.sh" % suffix))
-        old = json.load(open(os.path.join(dest, "meta.json"))).get("agent_meta")
-        if old:
-            json.dump(old, open(os.path.join(stage, "meta%s.json" % suffix), "w"))
+        bs = open(os.path.join(dest, "build-demo.sh")).read()
+        mm = _re.search(r"seed/demo(\d*)\.c", bs)
+        osuf = mm.group(1) if mm else ""
+        shutil.copy(os.path.join(dest, "patch.diff"), os.path.join(stage, "patch%s.diff" % osuf))
+        shutil.copy(os.path.join(dest, "demo.c"), os.path.join(stage, "demo%s.c" % osuf))
+        shutil.copy(os.path.join(dest, "build-demo.sh"), os.path.join(stage, "build-demo%s.sh" % osuf))
+        oldmeta = json.load(open(os.path.join(dest, "meta.json"))).get("agent_meta")
+        if oldmeta:
+            json.dump(oldmeta, open(os.path.join(stage, "meta%s.json" % osuf), "w"))
         src = stage
+        suffix = osuf
         patch = os.path.join(src, "patch%s.diff" % suffix)
         demo = os.path.join(src, "demo%s.c" % suffix)
         bld = os.path.join(src, "build-demo%s.sh" % suffix)
